@@ -304,6 +304,45 @@ def fam_metamorphic(ctx, rng):
     ctx.nontrivial([cfg["method"], cfg["op"], cfg["alpha"], dt, L, "meta"])
 
 
-FAMILIES = [("reference-freq-domain", fam_reference_freq), ("reference-azimuth-rotdpp-diffuse", fam_reference_other),
+def fam_reference_mixed_dt(ctx, rng):
+    """Several windows with DIFFERENT time steps in one call (frequency-domain resampling): every row must be
+    the spectral ratio of its own window on its own FFT grid."""
+    import hvsrpy
+    k = int(rng.integers(2, 5))
+    dts = [float(x) for x in rng.choice([0.004, 0.005, 0.01, 0.0125, 0.02, 1 / 75], k, replace=False)]
+    if rng.random() < 0.5:
+        dts = dts + [dts[0]]
+    L = [int(rng.choice([300, 1000, 2048, 5000])) for _ in dts]
+    kind = str(rng.choice(["freq", "freq", "single", "rotdpp", "azimuthal"]))
+    cfg = gen_cfg(rng, max(dts), max(L), kind)
+    cfg["user_n"] = int(rng.choice([2 ** 15, 2 ** 16]))
+    cfg["fcs"] = cfg["fcs"] * min(1.0, 0.9 * (0.5 / max(dts)) / cfg["fcs"].max())
+    windows = [gen.recording_arrays(rng, n, None, 1.0) for n in L]
+    ctx.describe(dts=dts, lengths=L, **cfg_info(cfg))
+    recs = [gen.make_recording(w[0], w[1], w[2], dt) for w, dt in zip(windows, dts)]
+    st = make_settings(cfg)
+    ctx.count("process_calls")
+    try:
+        with np.errstate(all="ignore"):
+            res = hvsrpy.process(recs, st)
+    except ValueError:
+        ctx.count("mixed_dt_case_refused")
+        return
+    n = st.fft_settings["n"]
+    azs = list(cfg["azimuths"]) if kind == "azimuthal" else [None]
+    curves = [np.asarray(h.amplitude) for h in res.hvsrs] if kind == "azimuthal" else [np.atleast_2d(np.asarray(res.amplitude))]
+    for ai, az in enumerate(azs):
+        for wi, (w, dt) in enumerate(zip(windows, dts)):
+            ref = reference(cfg, w, dt, n, az)
+            bad = ref.mismatches(curves[ai][wi])
+            ctx.check(not bad, "reference-pipeline", f"{cfg['method']}: in a list with mixed time steps the curve of window {wi} "
+                      f"(dt={dt}) differs from its spectral ratio at {len(bad)} fcs", window=wi, az=az, dts=dts,
+                      fc=[float(cfg["fcs"][j]) for j in bad[:4]], got=[float(curves[ai][wi][j]) for j in bad[:4]],
+                      want=[float(ref.base[j]) for j in bad[:4]], method=cfg["method"], op=cfg["op"])
+    ctx.nontrivial([dts, L, cfg["method"], cfg["op"], "mixed-dt"])
+    ctx.state(["mixed-dt", kind, len(set(dts))])
+
+
+FAMILIES = [("reference-mixed-time-steps", fam_reference_mixed_dt), ("reference-freq-domain", fam_reference_freq), ("reference-azimuth-rotdpp-diffuse", fam_reference_other),
             ("closed-form-proportional", fam_closed_form), ("metamorphic-scaling-aliases", fam_metamorphic),
             ("reference-any", fam_reference)]
